@@ -70,7 +70,8 @@ type c13Obs struct {
 // pending: a user call without a deadline is outstanding (the peer never answers it) while the
 // pings meet their fates -- the situation keep-alive exists for.  It must not delay the closing
 // of a dead session, and it must have failed by the time the session counts as closed.
-func c13Case(side string, interval time.Duration, threshold int, pattern string, pending bool) (obs c13Obs, bad, sig string) {
+func c13Case(side string, interval time.Duration, threshold int, pattern string, pendingKind string) (obs c13Obs, bad, sig string) {
+	pending := pendingKind != ""
 	fail := func(s, format string, a ...any) {
 		if bad == "" {
 			sig, bad = "c13 "+s, fmt.Sprintf(format, a...)
@@ -100,6 +101,7 @@ func c13Case(side string, interval time.Duration, threshold int, pattern string,
 	}}
 	broke := false
 	obs.closedAt = -1
+	parkedDone := time.Duration(-1)
 	handshake := make(chan struct{})
 	// scripted peer
 	go func() {
@@ -121,6 +123,10 @@ func c13Case(side string, interval time.Duration, threshold int, pattern string,
 			switch {
 			case m.Method == "" && string(m.ID) == `"init"`:
 				write(`{"jsonrpc":"2.0","method":"notifications/initialized","params":{}}`)
+				if pendingKind == "handler" {
+					// a request of the peer whose handler runs until its context ends
+					write(`{"jsonrpc":"2.0","id":"park","method":"tools/call","params":{"name":"park","arguments":{}}}`)
+				}
 				close(handshake)
 			case m.Method == "initialize":
 				write(`{"jsonrpc":"2.0","id":` + string(m.ID) + `,"result":{"protocolVersion":"2025-06-18","capabilities":{},"serverInfo":{"name":"peer","version":"1"}}}`)
@@ -147,6 +153,11 @@ func c13Case(side string, interval time.Duration, threshold int, pattern string,
 	var sess c13Session
 	if side == "server" {
 		s := NewServer(&Implementation{Name: "srv", Version: "1"}, &ServerOptions{KeepAlive: interval, KeepAliveFailureThreshold: threshold, Logger: quietLogger})
+		s.AddTool(&Tool{Name: "park", InputSchema: map[string]any{"type": "object"}}, func(hctx context.Context, _ *CallToolRequest) (*CallToolResult, error) {
+			<-hctx.Done()
+			parkedDone = time.Since(t0)
+			return nil, hctx.Err()
+		})
 		ss, err := s.Connect(ctx, sessT, nil)
 		if err != nil {
 			return obs, "connect: " + err.Error(), "c13 connect-failed"
@@ -166,7 +177,7 @@ func c13Case(side string, interval time.Duration, threshold int, pattern string,
 		obs.closedAt = time.Since(t0)
 	}()
 	pendingDone := time.Duration(-1)
-	if pending {
+	if pendingKind == "call" {
 		go func() {
 			if cs, ok := sess.(*ClientSession); ok {
 				cs.ListTools(ctx, nil)
@@ -186,8 +197,14 @@ func c13Case(side string, interval time.Duration, threshold int, pattern string,
 		defer cancel()
 		return sess.Ping(pctx, nil)
 	}, fail)
-	if pending && obs.closedAt >= 0 && pendingDone < 0 {
+	if pendingKind == "call" && obs.closedAt >= 0 && pendingDone < 0 {
 		fail("pending-call-outlives-session", "pattern %q: the session was closed at %v but the call that was outstanding is still blocked", pattern, obs.closedAt)
+	}
+	if pendingKind == "handler" && obs.closedAt >= 0 && parkedDone < 0 {
+		fail("handler-outlives-session", "pattern %q: the session was closed at %v but the context of the handler that was running has not ended", pattern, obs.closedAt)
+	}
+	if pendingKind == "handler" && obs.closedAt < 0 && parkedDone >= 0 {
+		fail("handler-cancelled-on-live-session", "pattern %q: the session is open but the running handler's context was ended at %v", pattern, parkedDone)
 	}
 	// shut down and check that nothing is left behind
 	if pending {
@@ -308,8 +325,12 @@ func TestVerifC13(t *testing.T) {
 			gen(prefix+string(c), n-1, f)
 		}
 	}
-	for _, side := range []string{"server", "client", "server+pending-call", "client+pending-call"} {
-		pending := strings.HasSuffix(side, "+pending-call")
+	for _, side := range []string{"server", "client", "server+pending-call", "client+pending-call", "server+pending-handler"} {
+		pendingKind := ""
+		if i := strings.Index(side, "+pending-"); i >= 0 {
+			pendingKind = side[i+len("+pending-"):]
+		}
+		pending := pendingKind != ""
 		for _, interval := range []time.Duration{2 * time.Second, 7 * time.Second} {
 			if pending && interval != 2*time.Second {
 				continue
@@ -329,7 +350,7 @@ func TestVerifC13(t *testing.T) {
 							}
 						}()
 						synctest.Test(t, func(t *testing.T) {
-							obs, bad, sig = c13Case(strings.TrimSuffix(side, "+pending-call"), interval, th, p, pending)
+							obs, bad, sig = c13Case(strings.Split(side, "+")[0], interval, th, p, pendingKind)
 						})
 					}()
 					desc := func() string {
